@@ -307,6 +307,13 @@ func (v *Verifier) applyContract(st *State, in ssa.Instruction, key string, ct *
 				continue
 			}
 		}
+		if v.contract != nil && v.contract.WaivePre != nil {
+			if why, ok := v.contract.WaivePre[short+"."+r.Label]; ok {
+				v.noteOnce("assume (waived, neither proved nor added to the state) precondition " + r.Label + " of " + short + " at its call sites in " + v.key + " (waivepre): " + why)
+				v.assumeCount++
+				continue
+			}
+		}
 		v.emit(st, "pre", short+"."+r.Label+"@"+v.siteLabel(in), se.evalBool(r.E), r.Props, "requires "+r.Text, in)
 		st.assume(se.evalBool(r.E))
 	}
